@@ -260,6 +260,21 @@ func execOpen(r *rand.Rand, e *OpenEv) {
 			var s, o clipper.PathsD
 			e.Ok = c.ExecuteOC(ct, fr, &s, &o)
 			e.Sol, e.SolOpen = fromPathsDScaled(s, 10), fromPathsDScaled(o, 10)
+		case "EngineDTree":
+			e.K = 10
+			c := clipper.NewClipperD(1)
+			c.AddPaths(toPathsD(e.Subj), clipper.Subject, false)
+			c.AddPaths(toPathsD(e.Open), clipper.Subject, true)
+			c.AddPaths(toPathsD(e.Clip), clipper.Clip, false)
+			t := clipper.NewPolyTreeD()
+			var o clipper.PathsD
+			e.Ok = c.ExecutePolyTreeD(ct, fr, t, &o)
+			e.Tree = flattenT(t.PolyPathBase) // tree polygons are in scaled integer units already
+			e.SolOpen = fromPathsDScaled(o, 10)
+			e.Sol = Paths{}
+			for _, n := range e.Tree {
+				e.Sol = append(e.Sol, n.Poly)
+			}
 		case "Engine64Tree":
 			c := clipper.NewClipper64()
 			c.AddPaths(toPaths64(e.Subj), clipper.Subject, false)
@@ -296,6 +311,16 @@ func execOpen(r *rand.Rand, e *OpenEv) {
 			var s, o clipper.PathsD
 			c.ExecuteOC(ct, fr, &s, &o)
 			e.SolClosed = nz(fromPathsDScaled(s, 10))
+		case "EngineDTree":
+			c := clipper.NewClipperD(1)
+			c.AddPaths(toPathsD(e.Subj), clipper.Subject, false)
+			c.AddPaths(toPathsD(e.Clip), clipper.Clip, false)
+			t := clipper.NewPolyTreeD()
+			var o clipper.PathsD
+			c.ExecutePolyTreeD(ct, fr, t, &o)
+			for _, n := range flattenT(t.PolyPathBase) {
+				e.SolClosed = append(e.SolClosed, n.Poly)
+			}
 		case "Engine64Tree":
 			c := clipper.NewClipper64()
 			c.AddPaths(toPaths64(e.Subj), clipper.Subject, false)
@@ -377,7 +402,7 @@ func execOpen(r *rand.Rand, e *OpenEv) {
 	e.Nontriv = in && out
 }
 
-var openApis = []string{"Engine64OC", "Engine64OC", "EngineDOC", "Engine64Tree"}
+var openApis = []string{"Engine64OC", "Engine64OC", "EngineDOC", "Engine64Tree", "EngineDTree"}
 
 func driveOpen(r *rand.Rand, w *writer, n int) {
 	for i := 0; i < n; i++ {
@@ -425,7 +450,7 @@ func driveOpen(r *rand.Rand, w *writer, n int) {
 				open[0][0] = clip[0][r.Intn(len(clip[0]))]
 			}
 		}
-		e := &OpenEv{Ev: "OpenOp", Chk: chkFor("C09"), Api: openApis[r.Intn(4)], Ct: 1 + r.Intn(3), Fr: r.Intn(4),
+		e := &OpenEv{Ev: "OpenOp", Chk: chkFor("C09"), Api: openApis[r.Intn(len(openApis))], Ct: 1 + r.Intn(3), Fr: r.Intn(4),
 			Subj: subj, Open: open, Clip: clip}
 		execOpen(r, e)
 		w.emit(e)
